@@ -391,6 +391,14 @@ def render(tree, style=None):
 VALUES = [-2.0, -1.0, -0.5, 0.0, 0.5, 1.0, 2.0, 3.0]
 
 
+def weighted(*pairs):
+    """choice between strategies with integer weights: weighted((7, s1), (1, s2)).  Not one_of: Hypothesis drops alternatives
+    of one_of that are the same strategy object (repeating an object does NOT weight it) and flattens nested one_of into
+    equally likely branches.  Here an index is drawn first; it shrinks towards the first alternative."""
+    table = [s for w, s in pairs for _ in range(w)]
+    return st.integers(0, len(table) - 1).flatmap(lambda k: table[k])
+
+
 def leaf(names, externals=()):
     alts = [st.sampled_from(names).map(lambda s: ["n", s]),
             st.sampled_from(LITERALS).map(lambda v: ["l", v])]
@@ -467,8 +475,19 @@ def styled(draw, tree_strategy):
     return tree, render(tree, Style(pick))
 
 
-def vectors(n, allow_nan=True):
+# magnitudes far from 1 (tiny but perfectly regular numbers, a rounding-residue-sized one, large ones): ordinary arithmetic
+# treats them like any other number - only an exact 0 is a zero; the reference evaluator judges them with the relative
+# tolerance (they are not on the dyadic lattice) and gives up (Undef) where a result leaves 1e-100 .. 1e100
+WIDE = [2.0 ** -60, -2.0 ** -70, 1e-17, -2.5e-16, 5.6e-17, 1e-40, 2.0 ** 40, -1e12]
+
+
+def vectors(n, allow_nan=True, wide=True):
+    """feature vectors: three fifths over VALUES (+ NaN), two fifths mixing in values of WIDE magnitudes"""
     vals = st.sampled_from(VALUES)
     if allow_nan:
-        vals = st.one_of(vals, vals, vals, vals, vals, vals, vals, st.just(NAN))
-    return st.lists(vals, min_size=n, max_size=n)
+        vals = weighted((7, vals), (1, st.just(NAN)))
+    ordinary = st.lists(vals, min_size=n, max_size=n)
+    if not wide:
+        return ordinary
+    mixed = st.lists(weighted((1, vals), (1, st.sampled_from(WIDE))), min_size=n, max_size=n)
+    return weighted((3, ordinary), (2, mixed))
